@@ -425,31 +425,35 @@ pub fn eval64(
 }
 
 /// Forward-mode derivative of `root` w.r.t. `wrt` in f64; None if some node
-/// is near a non-differentiable locus or leaves a comfortable range
+/// is near a non-differentiable locus or leaves a comfortable range.  Returns
+/// (value, derivative, magnitude bound of the derivative ignoring cancellation)
 fn forward64(
     ctx: &fidget_core::Context,
     root: Node,
     vars: &HashMap<Var, f64>,
     wrt: Var,
-) -> Option<(f64, f64)> {
-    let mut memo: HashMap<Node, (f64, f64)> = HashMap::new();
+) -> Option<(f64, f64, f64)> {
+    let mut memo: HashMap<Node, (f64, f64, f64)> = HashMap::new();
     for n in topo(ctx, &[root]) {
         let v = match *ctx.get_op(n).unwrap() {
-            Op::Input(v) => (vars[&v], if v == wrt { 1.0 } else { 0.0 }),
-            Op::Const(c) => (c.0 as f64, 0.0),
+            Op::Input(v) => {
+                let d = if v == wrt { 1.0 } else { 0.0 };
+                (vars[&v], d, d)
+            }
+            Op::Const(c) => (c.0 as f64, 0.0, 0.0),
             Op::Unary(o, a) => {
-                let (x, dx) = memo[&a];
+                let (x, dx, ax) = memo[&a];
                 let (v, k) = un_rule(un_of(o), x)?;
-                (v, k * dx)
+                (v, k * dx, k.abs() * ax)
             }
             Op::Binary(o, a, b) => {
-                let (x, dx) = memo[&a];
-                let (y, dy) = memo[&b];
+                let (x, dx, ax) = memo[&a];
+                let (y, dy, ay) = memo[&b];
                 let (v, ka, kb) = bin_rule(bin_of(o), x, y)?;
-                (v, ka * dx + kb * dy)
+                (v, ka * dx + kb * dy, ka.abs() * ax + kb.abs() * ay)
             }
         };
-        if !(v.0.is_finite() && v.1.is_finite() && v.0.abs() < 1e12 && v.1.abs() < 1e12) {
+        if !(v.0.is_finite() && v.1.is_finite() && v.0.abs() < 1e12 && v.2.abs() < 1e12) {
             return None;
         }
         memo.insert(n, v);
@@ -644,13 +648,15 @@ impl Prop for P {
                             .enumerate()
                             .map(|(i, v)| (*v, p[i].0 as f64))
                             .collect();
-                        let Some((_v, dref)) = forward64(&b.ctx, root, &vars64, var) else {
+                        let Some((_v, dref, dabs)) = forward64(&b.ctx, root, &vars64, var) else {
                             cx.ev.count("symbolic_skipped_locus_or_range");
                             continue;
                         };
                         let dsym = eval64(&b.ctx, d, &vars64);
                         cx.ev.count("symbolic_obligations");
-                        let tol = 1e-7 * (dref.abs() + 1.0);
+                        // the derivative graph contains constants folded in
+                        // f32 by the context (relative error 6e-8 per term)
+                        let tol = 1e-5 * (dabs + 1.0);
                         if !((dsym - dref).abs() <= tol) {
                             fail!(
                                 "symbolic-deriv",
@@ -782,15 +788,15 @@ impl Prop for P {
     fn plan(tier: Tier) -> Plan {
         match tier {
             Tier::Quick => Plan {
-                workers: 8,
-                cases_per_worker: 1500,
-                timeout_s: 1200,
+                workers: 16,
+                cases_per_worker: 10000,
+                timeout_s: 1800,
                 max_shrink_iters: 2000,
             },
             Tier::Thorough => Plan {
                 workers: 16,
-                cases_per_worker: 25000,
-                timeout_s: 7200,
+                cases_per_worker: 150000,
+                timeout_s: 14400,
                 max_shrink_iters: 2000,
             },
         }
